@@ -23,6 +23,12 @@ def main():
     except Inconclusive as e:
         log(f"WARNING: {e}")
         ok = False
+    try:
+        Replay(log).build_cargo_libcnb()
+        log("cargo-libcnb (C15 replay) built")
+    except Inconclusive as e:
+        log(f"WARNING: {e}")
+        ok = False
     r = subprocess.run(["cc", "-shared", "-fPIC", "-O1", "-o", os.path.join(WORK, "faultshim.so"),
                         os.path.join(os.path.dirname(WORK), "faultshim", "faultshim.c"), "-ldl"], capture_output=True, text=True)
     log("fault injector: " + ("built" if r.returncode == 0 else "FAILED " + r.stderr[-200:]))
